@@ -371,8 +371,9 @@ def check(world, tier, seed, jobs=None, runs=None, replay_path=None, digests=Non
         "wall_s": round(wall_s, 2),
         "violations": len(new),
     }
-    os.makedirs(os.path.join(VERIF, "evidence"), exist_ok=True)
-    with open(os.path.join(VERIF, "evidence", f"{prop}.json"), "w") as f:
+    evdir = os.environ.get("DST_EVIDENCE_DIR") or os.path.join(VERIF, "evidence")
+    os.makedirs(evdir, exist_ok=True)
+    with open(os.path.join(evdir, f"{prop}.json"), "w") as f:
         json.dump(ev, f, indent=1, default=str)
     print(f"{prop} {tier}: runs={n_eval} distinct_nontrivial={ev['coverage']['distinct_nontrivial']} "
           f"violations={len(new)} known={len(known_lines)} harness_errors={len(harness)} "
@@ -413,7 +414,7 @@ def report_violation(world, tier, seed, r, v, per_run_timeout, plan):
         "shrunk_from": {"choices": orig_n}, "shrunk_to": {"choices": len(shrunk)},
         "shrink_evals": evals,
     }
-    d = os.path.join(VERIF, "replays", prop)
+    d = os.path.join(os.environ.get("DST_REPLAY_DIR") or os.path.join(VERIF, "replays"), prop)
     os.makedirs(d, exist_ok=True)
     h = hashlib.sha256(json.dumps([key, shrunk]).encode()).hexdigest()[:12]
     path = os.path.join(d, key.replace("/", "_") + "-" + h + ".json")
